@@ -619,9 +619,16 @@ pub fn run(ctx: &Ctx) -> PropertyReport {
             }
         }
         lens.extend([255, 256, 257, 511, 512, 513, 1000, 1500, 5000, 100_001, 1_000_003]);
+        // around and above 1 MiB / 2 MiB / 4 MiB (block sizes of streaming encoders), for the byte-string kinds only
+        let huge: Vec<usize> = vec![(1 << 20) - 1, 1 << 20, (1 << 20) + 1, (1 << 20) + 2, (1 << 21) + 1, 3_000_001, (1 << 22) + 5];
         let mut cases = Vec::new();
         for kind in ["BinaryString", "SharedString", "String", "Tags", "Attributes", "NumberSequence"] {
             for n in &lens {
+                cases.push(LongVal { kind: kind.to_string(), n: *n });
+            }
+        }
+        for kind in ["BinaryString", "SharedString"] {
+            for n in &huge {
                 cases.push(LongVal { kind: kind.to_string(), n: *n });
             }
         }
